@@ -15,6 +15,8 @@ def gen(tier, rnd):
     L = []
     for m in METHODS:
         for p in PATHS: L.append('route %s %s' % (m, hx(p)))
+    for m in METHODS:
+        for p in PATHS: L.append('routenf %s %s' % (m, hx(p)))      # the same routes on a router with a custom not-found handler
     combos = [(1, 2, 30, 'end'), (2, 4, 40, 'end'), (3, 6, 40, 'mid'), (4, 8, 25, 'end'), (1, 0, 0, 'end'), (2, 0, 0, 'end'), (4, 0, 0, 'end')]   # 0 clients: shutdown() right after serveThreaded()
     if tier == 'thorough':
         for _ in range(20): combos.append((rnd.randint(1, 6), rnd.randint(1, 12), rnd.randint(5, 80), rnd.choice(['end', 'mid', 'mid'])))
@@ -38,7 +40,7 @@ def oracle(ln, out):
     if out.startswith('TSAN'): return ('data-race', 'ThreadSanitizer: ' + out[:300])
     if any(x in out for x in BAD): return ('crash', 'implementation aborted/hung: ' + out[:160])
     w = ln.split()
-    if w[0] == 'route':
+    if w[0] in ('route', 'routenf'):
         m = w[1]; path = bytes.fromhex(w[2]).decode()
         segs = [s for s in path.split('/') if s]
         f = dict(kv.split('=', 1) for kv in out.split(' ')[1:] if '=' in kv); status = out[:3]
@@ -50,6 +52,7 @@ def oracle(ln, out):
             if status != '405' or f.get('allow') != '+'.join(owners): return ('wrong-answer', '%s %s: expected 405 with Allow %s, got %s' % (m, path, '+'.join(owners), out[:80]))
         else:
             if status != '404': return ('wrong-answer', '%s %s: expected 404, got %s' % (m, path, out[:80]))
+            if w[0] == 'routenf' and bytes.fromhex(f.get('body', '')) != b'custom-nf': return ('wrong-answer', '%s %s: the custom not-found handler did not answer: %s' % (m, path, out[:80]))
         return None
     f = dict(kv.split('=', 1) for kv in out.split(' ') if '=' in kv)
     if f.get('answered') != 'all-own' or f.get('bad') != '0':
@@ -73,7 +76,7 @@ def oracle_tsan(ln, out):
 
 def classify(ln, out):
     w = ln.split()
-    if w[0] == 'route': return ('route', w[1], w[2], out[:3])
+    if w[0] in ('route', 'routenf'): return (w[0], w[1], w[2], out[:3])
     return ('mt',) + tuple(w[1:5]) + (out.split(' bad=')[-1][:40],)
 
 def extra(res, lean, drv, tier, rnd):
@@ -92,7 +95,7 @@ def extra(res, lean, drv, tier, rnd):
             again = core.run_lines(tdrv, [l]); d = oracle_tsan(l, again[0] if again else 'MISSING')
         if d: res.failures.append({'kind': 'oracle', 'case': 'tsan:' + l, 'class': d[0], 'detail': d[1], 'impl': o[:500]})
 
-RULE = ('route level: every method x 13 paths (registered for that method, for other methods only, for none; with duplicate and trailing slashes) against a shared router with GET/POST/PUT/DELETE tables on a live endpoint: '
+RULE = ('route level (router without and with a custom not-found handler): every method x 13 paths (registered for that method, for other methods only, for none; with duplicate and trailing slashes) against a shared router with GET/POST/PUT/DELETE tables on a live endpoint: '
         'status, body, Allow set and the number of method tables of the shared router after serving are compared with the model; concurrent: c clients x r keep-alive requests x w workers (swept), request mixes hitting every '
         'method table incl. methods nobody registered, all clients released together, shutdown() after the load, in the middle of it, or right after serveThreaded() with no client at all: every answer must carry its own request\'s tag, shutdown must return, stop the acceptor and leave '
         'no framework thread; the same scenarios run on a ThreadSanitizer build, any report is a violation. non-trivial = distinct (op, parameters, outcome)')
